@@ -2,6 +2,8 @@ pub mod c01;
 pub mod c02;
 pub mod c06;
 pub mod c09;
+pub mod c10;
+pub mod c11;
 pub mod c12;
 
 use crate::core::Prop;
@@ -33,5 +35,5 @@ impl Case {
 }
 
 pub fn all() -> Vec<Box<dyn Prop>> {
-    vec![Box::new(c01::C01), Box::new(c02::C02), Box::new(c06::C06), Box::new(c09::C09), Box::new(c12::C12)]
+    vec![Box::new(c01::C01), Box::new(c02::C02), Box::new(c06::C06), Box::new(c09::C09), Box::new(c10::C10), Box::new(c11::C11), Box::new(c12::C12)]
 }
